@@ -218,8 +218,9 @@ def c18_run(rep, rng, tier, term):
             reqs.append([2, 0, s, ae]); meta.append(('str', s, ae))
     # irregular string / list inputs
     odd_strs = ['', ';', '1;;2', ' 1 ; 31 ', '2;', ';1', 'x', '1;x;2', '38;x;5;1', '38;5;x;7', '+1', '-1', '1_0', '38;5;-1', '1;38;5;214',
+                '38;5;x;1', '38;5;1.5;4', '38;2;1;2;x;3;4', '\u0663', '\uff11', '3\u0661', '>4;2', '?1;31', '1:3;4', '38;5;1:2;4', '\xa01\xa0', '+1;4', '1;+3',
                 '38;5', '38', '0', '00', '007', '4;58;2;1;2;3;24']
-    str_inputs = odd_strs + [';'.join(rng.choice(['1', '31', '', ' 2', 'x', '38', '5', '214', '-3', '0', '+4']) for _ in range(rng.randint(1, 6))) for _ in range(1500 if tier == 'quick' else 40000)]
+    str_inputs = odd_strs + [';'.join(rng.choice(['1', '31', '', ' 2', 'x', '38', '5', '214', '-3', '0', '+4', '\u0663', '1_0', '2', '48', '1.5', '>4']) for _ in range(rng.randint(1, 6))) for _ in range(1500 if tier == 'quick' else 40000)]
     str_inputs += [';'.join(rng.choice(['1', '31', '', '', '2', '38', '5', '214', '0', '22', '4', '48', '2']) for _ in range(rng.randint(1, 7))) for _ in range(1500 if tier == 'quick' else 40000)]
     for s in str_inputs:
         for ae in (False, True):
@@ -348,15 +349,28 @@ def c18_run(rep, rng, tier, term):
 
 
 def c18_str_oracle(w, term):
-    import re as _re
-    if not w or not _re.fullmatch('[0-9;]+', w):
+    """the state a terminal reaches on the code list a ';'-separated string denotes.  An item is a code when it consists of
+    decimal digits (the library tolerates blanks around them; an empty item is 0); any other item is no code at all: it
+    contributes nothing AND ends an extended-colour group in progress, so the items between two such items are read as
+    code lists of their own, one after the other."""
+    if not w:
         return None
+    runs, cur = [], []
+    for tok in w.split(';'):
+        t = tok.strip()
+        if t == '' or (t.isascii() and t.isdigit() and len(t) < 4000):
+            cur.append(t or '0')
+        else:
+            runs.append(cur); cur = []
+    runs.append(cur)
     try:
         settings = parse_graphic_sequence(w, False)
         d = settings_to_dict(settings)
     except Exception as e:  # noqa
         return 'parse_graphic_sequence(%r) raised %r' % (w, e)
-    exp = term.style([w])
+    # each run is a code list of its own: feed them to the terminal as separate SGR sequences and read the state of the next character
+    r = term.run(''.join('\x1b[' + ';'.join(x) + 'm' for x in runs if x) + 'X')
+    exp = None if r is None else r[1][0]
     if exp is None:
         return None
     if dict_state(d) != exp:
